@@ -229,6 +229,7 @@ def _handler_rules(ctx, body, writer, is_request):
         # server id: outermost set_option(54, X)
         cur = norm(fields["options"])
         sid = None
+        sid_bb = None
         for _ in range(40):
             if cur[0] == "call" and str(cur[1]).endswith("to_options"):
                 cur = norm(cur[2][0])
@@ -236,9 +237,25 @@ def _handler_rules(ctx, body, writer, is_request):
                 k = norm(cur[2][1])
                 if k[0] == "const" and k[1] == 54 and sid is None:
                     sid = norm(cur[2][2])
+                    sid_bb = cur[3] if len(cur) > 3 else None
                 cur = norm(cur[2][0])
             else:
                 break
+        # ... and it is the last word: a policy (apply-server-id) can write option 54 too, so every policy application of the
+        # handler has to come before this set_option
+        appl = []
+        for b2, t2 in body.calls():
+            tys = [body.local_ty(op_place(a)[0]) for a in t2["args"] if op_place(a) and len(op_place(a)) == 1]
+            if (callee_name(t2) or "").rsplit("::", 1)[-1] == "apply_policies" or any(
+                    ty.startswith("&mut ") and ty_ends(ty, "dhcp::Response") for ty in tys):
+                appl.append(b2)
+        if sid is not None and (sid_bb is None or not all(cfg.dominates(a, sid_bb) and a != sid_bb for a in appl)):
+            ctx.bad("R6", "reply-server-id-set-after-policies:%s" % tag, where,
+                    "option 54 is set before a call that can still write the response (%d policy application(s) in the handler): a policy carrying "
+                    "apply-server-id then replaces this server's identifier" % len(appl))
+            sid = None
+        else:
+            ctx.ok("R6", "reply-server-id-set-after-policies:%s" % tag, where)
         good = False
         if sid is not None:
             if sid[0] == "field" and sid[2] == "serverip":
